@@ -1286,3 +1286,85 @@ def engine_opwake(tier, seed):
     if not res['errors']:
         cache_put(key, res)
     return res
+
+
+def run_apalache(name, module, args, expect_error=False, timeout=900):
+    """One apalache-mc run in its own scratch directory under build/.  Returns a
+    record shaped like a TLC run summary."""
+    wd = os.path.join(BUILD, 'apalache', name)
+    shutil.rmtree(wd, ignore_errors=True)
+    os.makedirs(wd)
+    shutil.copy(os.path.join(SPEC, module + '.tla'), wd)
+    t0 = time.time()
+    try:
+        p = subprocess.run(['timeout', str(timeout), 'apalache-mc', 'check', '--out-dir=' + os.path.join(wd, 'out')] + args + [module + '.tla'],
+                           cwd=wd, stdout=subprocess.PIPE, stderr=subprocess.STDOUT, stdin=subprocess.DEVNULL, text=True)
+        out, rc = p.stdout, p.returncode
+    except OSError as e:
+        out, rc = str(e), 127
+    no_error = 'The outcome is: NoError' in out
+    found = 'The outcome is: Error' in out and 'invariant' in out and 'violated' in out
+    ok = found if expect_error else no_error
+    rec = {'name': name, 'module': module, 'tool': 'apalache', 'args': ' '.join(args), 'generated': 0, 'distinct': 0, 'depth': 1,
+           'wall_s': round(time.time() - t0, 1), 'ok': ok, 'violated': None if ok else 'unexpected outcome', 'error': None if ok else out[-600:]}
+    shutil.rmtree(os.path.join(wd, 'out'), ignore_errors=True)
+    return rec
+
+
+IND_RUNS = {
+    # module: (inductive invariant, contract Next, [(deviation Next, what it is)], [(probe invariant, meaning)])
+    'SqInd': ('Safety', 'Next', [('NextOffByOne', 'locked fullness check off by one (the code before fix 29a478a)')],
+              ['NoWriter']),
+    'CqInd': ('IndInv', 'Next', [('NextNonModular', 'non-modular head/tail comparison (the code before fix e64d60c)')],
+              ['NoRead']),
+}
+
+
+def engine_ind(module, tag):
+    """Unbounded counter arithmetic (W = 2^32, every legal queue size, any run
+    length): the inductive invariant of SqInd.tla / CqInd.tla discharged by
+    Apalache.  Base case, inductive step, and two sanity runs: the invariant is
+    not inductive for the named deviation, and the inductive step is not vacuous
+    (a state in which a slot is written / read satisfies the invariant)."""
+    from concurrent.futures import ThreadPoolExecutor
+    name = module.lower()
+    key = '%s-%s' % (name, tree_hash())
+    cached = cache_get(key)
+    if cached:
+        cached['cached'] = True
+        return cached
+    t0 = time.time()
+    res = {'engine': name, 'tier': 'any', 'tlc': [], 'replays': [], 'divergences': [], 'errors': [], 'samples': [], 'cached': False}
+    inv, nxt, devs, probes = IND_RUNS[module]
+    jobs = [('base', ['--cinit=ConstInit', '--init=Init', '--inv=IndInv', '--length=0'], False,
+             'base case: Init => IndInv (W = 2^32, all queue sizes)'),
+            ('step', ['--cinit=ConstInit', '--init=IndInit', '--next=' + nxt, '--inv=' + inv, '--length=1'], False,
+             'inductive step: IndInv /\\ Next => IndInv\' (W = 2^32, all queue sizes)')]
+    for d, what in devs:
+        jobs.append(('dev_' + d, ['--cinit=ConstInit', '--init=IndInit', '--next=' + d, '--inv=' + inv, '--length=1'], True,
+                     'sanity: the invariant is NOT inductive for the deviation: ' + what))
+    for pr in probes:
+        jobs.append(('probe_' + pr, ['--cinit=ConstInit', '--init=IndInit', '--next=' + nxt, '--inv=' + pr, '--length=0'], True,
+                     'sanity (vacuity): a state accessing a slot satisfies IndInv, i.e. %s is violated from IndInit' % pr))
+    with ThreadPoolExecutor(max_workers=4) as ex:
+        futs = [(j, ex.submit(run_apalache, '%s_%s' % (name, j[0]), module, j[1], j[2])) for j in jobs]
+        for j, f in futs:
+            r = f.result()
+            r['purpose'] = j[3]
+            res['tlc'].append(r)
+            if not r['ok']:
+                res['errors'].append('Apalache %s: %s' % (r['name'], (r['error'] or '')[-300:]))
+    res['samples'].append({'what': '%s: inductive invariant holds for W = 2^32 and every power-of-two queue size (Apalache, %d runs)' % (module, len(jobs))})
+    res['wall_s'] = round(time.time() - t0, 1)
+    res['divergences_total'] = 0
+    if not res['errors']:
+        cache_put(key, res)
+    return res
+
+
+def engine_sqind(tier, seed):
+    return engine_ind('SqInd', 'C04')
+
+
+def engine_cqind(tier, seed):
+    return engine_ind('CqInd', 'C05')
